@@ -105,6 +105,7 @@ def run_shard(ctx):
     mon_trso.install(semantic=True, K={"quick": 2, "thorough": 3}[ctx.tier])
     mon_dsep.install()
     rng = ctx.rng
+    pool: list = []
     for i in range(ctx.share({"quick": 1400, "thorough": 40000}[ctx.tier])):
         biased = i % 3 != 0
         if biased:
@@ -119,6 +120,36 @@ def run_shard(ctx):
                 continue
         doms = random_domains(rng, gd, q, biased) if i % 10 else {}
         run_case(ctx, gd, q, doms)
+        if "trso_line10" in mon_trso.FACTS.get("lines", ()):
+            pool.append((gd, q, doms))
+    # feedback: line 10 (ID's line 7) is reached by ~4 % of random cases; cases that reached it are kept and mutated
+    fb = {"line10_cases": 0}
+    for i in range(ctx.share({"quick": 1200, "thorough": 40000}[ctx.tier])):
+        if pool and rng.random() < 0.9:
+            gd, q, doms = rng.choice(pool)
+            gd = gg.mutate(gd, rng)
+            if rng.random() < 0.3:
+                q = gq.random_query(rng, gd) or q
+            if not (set(q["X"]) | set(q["Y"])) <= set(gd["nodes"]):
+                continue
+            if rng.random() < 0.5:
+                doms = random_domains(rng, gd, q, True) if rng.random() < 0.7 else {}
+            if any(not set(z + w) <= set(gd["nodes"]) for z, w in doms.values()):
+                doms = {}
+        else:
+            gd = gg.random_admg(rng, rng.choice([4, 5, 5]), hostile=rng.choice(["onedistrict", "bichain", "bow", "none"]))
+            q = gq.random_query(rng, gd)
+            if q is None:
+                continue
+            doms = {}
+        run_case(ctx, gd, q, doms)
+        if "trso_line10" in mon_trso.FACTS.get("lines", ()):
+            fb["line10_cases"] += 1
+            if len(pool) < 300:
+                pool.append((gd, q, doms))
+            else:
+                pool[rng.randrange(len(pool))] = (gd, q, doms)
+    ctx.extras["feedback"] = fb
 
 
 def replay(case):
